@@ -4,7 +4,11 @@ from nx import extract, ir, sym
 _cache = {}
 
 
-def program(cfg="all"):
+CFG = "all"
+
+
+def program(cfg=None):
+    cfg = CFG if cfg in (None, "all") else cfg
     if cfg not in _cache:
         d, info = extract.extract(cfg)
         _cache[cfg] = (ir.Prog(d), info)
